@@ -137,6 +137,7 @@ class Interp:
         self.loop_counter = {}
         self.fresh_n = 0
         self.info = []
+        self.trace = []      # observable effects in execution order: ('requires_grad_', <core>, flag), ('call', '<opaque>.method')
         self.checks = []               # (key, ok, detail) produced by sweep hooks
         self.lenient = False           # statement-slice mode: values outside the typed fragment stay opaque instead of aborting
 
@@ -159,6 +160,11 @@ class Interp:
 
     def truth(self, v: Value, ctxnode=None) -> bool:
         if isinstance(v, VBool):
+            if v.v is None and getattr(v, "cmp", None) is not None:
+                # a comparison stored in a local (`single = d == 1`) and tested later: loop trip counts / guards passed since may decide it
+                c = self.facts.compare(v.cmp[1], v.cmp[0], v.cmp[2])
+                if c is not None:
+                    return c
             if v.v is None:
                 # inside an `assert` the undecided condition is an assumption of the code that follows, not a fork
                 d = True if getattr(self, "assuming", 0) else self.trail.decide(v.key)
@@ -187,11 +193,11 @@ class Interp:
         raise Unmodelled(f"truth value of {type(v).__name__}")
 
     # ------------------------------------------------------------------ function execution
-    def call_function(self, f: Func, args: list, kwargs: dict, recv=None):
+    def call_function(self, f: Func, args: list, kwargs: dict, recv=None, closure_env=None):
         if self.depth > 6:
             raise Unmodelled("inlining depth exceeded")
         fn = f.node
-        env = {}
+        env = dict(closure_env) if closure_env is not None else {}
         a = fn.args
         names = [x.arg for x in a.posonlyargs + a.args]
         defaults = a.defaults
@@ -215,6 +221,7 @@ class Interp:
         sub.class_ctx = self.class_ctx
         sub.fresh_n = self.fresh_n
         sub.info = self.info
+        sub.trace = self.trace
         sub.checks = self.checks
         sub.lenient = self.lenient
         frame = Frame(f, env)
@@ -295,6 +302,10 @@ class Interp:
             return
         if isinstance(s, ast.Pass):
             return
+        if isinstance(s, ast.FunctionDef) and not s.decorator_list:
+            # a local helper: a closure over this frame
+            fr.env[s.name] = VClosure(Func(f"{fr.f.qual}.<locals>.{s.name}", fr.f.module, s, None), fr.env)
+            return
         if isinstance(s, ast.Assert):
             # a decidably false assertion raises; anything else is taken as stated (python -O removes it: it cannot carry behaviour)
             self.assuming = getattr(self, "assuming", 0) + 1
@@ -320,7 +331,21 @@ class Interp:
         if isinstance(s, ast.Continue):
             raise _Continue()
         if isinstance(s, ast.While):
-            raise Unmodelled("while loop")
+            # a loop whose condition is decided (or forked) at every turn: counters over a concrete order, flags; bounded unrolling
+            turns = 0
+            while self.truth(self.ev(s.test, fr)):
+                turns += 1
+                if turns > 40:
+                    raise Unmodelled("while loop that does not terminate within 40 evaluated turns")
+                try:
+                    self.exec_block(s.body, fr)
+                except _Break:
+                    break
+                except _Continue:
+                    continue
+            else:
+                self.exec_block(s.orelse, fr)
+            return
         raise Unmodelled(f"statement {type(s).__name__}")
 
     def assign(self, t, v, fr):
@@ -865,6 +890,11 @@ class Interp:
                 return VScalar(sl * sr)
             if isinstance(op, ast.Div):
                 return VScalar(sl * sr.inv())
+            if isinstance(op, ast.Pow) and isinstance(r, VInt) and r.p.const_value() is not None and 0 <= int(r.p.const_value()) <= 4:
+                out = Coef()
+                for _ in range(int(r.p.const_value())):
+                    out = out * sl
+                return VScalar(out)      # s ** 2 of a symbolic scalar: the product
             if isinstance(l, VFloat) and isinstance(r, VFloat):
                 if isinstance(op, ast.Add):
                     return VFloat(l.x + r.x)
@@ -962,6 +992,10 @@ class Interp:
         if isinstance(op, (ast.In, ast.NotIn)):
             return self.membership(op, l, r, node)
         sym = {ast.Eq: "==", ast.NotEq: "!=", ast.Lt: "<", ast.LtE: "<=", ast.Gt: ">", ast.GtE: ">="}[type(op)]
+        if sym in ("==", "!=") and any(isinstance(x, VOpaque) and x.tag.startswith("grad_fn?") for x in (l, r)) and any(isinstance(x, VNone) for x in (l, r)):
+            g = l if isinstance(l, VOpaque) else r
+            tracked = VBool(None, "autograd tracking: grad_fn of " + g.tag[len("grad_fn?"):])
+            return tracked if sym == "!=" else _negate(tracked)
         if isinstance(l, VNone) or isinstance(r, VNone):
             both = isinstance(l, VNone) and isinstance(r, VNone)
             if sym in ("==", "!="):
@@ -975,6 +1009,7 @@ class Interp:
             vb = VBool(None, key, *_int_fact_installers(sym, a, b))
             if sym in ("==", "!="):
                 vb.rel = (sym, a, b)
+            vb.cmp = (sym, a, b)      # re-examined when the condition is finally branched on: facts learnt in between may decide it
             return vb
         if isinstance(l, VBool) and isinstance(r, VBool) and sym in ("==", "!="):
             a, b = self.truth(l), self.truth(r)
@@ -1090,8 +1125,26 @@ class Interp:
         raise Unmodelled(f"membership test in {type(r).__name__}")
 
     def ev_ListComp(self, e, fr):
-        if len(e.generators) != 1:
-            raise Unmodelled("nested comprehension")
+        if len(e.generators) > 1:
+            # [f(x, y) for x in xs for y in g(x)] over concrete sequences: the concatenation of the inner comprehensions
+            g0 = e.generators[0]
+            outer = self.ev(g0.iter, fr)
+            if not isinstance(outer, (VList, VTuple)):
+                raise Unmodelled("nested comprehension over a symbolic sequence")
+            inner = ast.copy_location(ast.ListComp(elt=e.elt, generators=e.generators[1:]), e)
+            out = []
+            for x in outer.items:
+                fr2 = Frame(fr.f, dict(fr.env))
+                self.assign(g0.target, x, fr2)
+                if all(self.truth(self.ev(c, fr2)) for c in g0.ifs):
+                    part = self.ev_ListComp(inner, fr2)
+                    if not isinstance(part, VList):
+                        raise Unmodelled("nested comprehension with a symbolic inner sequence")
+                    out += part.items
+            v = VList(out)
+            if self.class_ctx:
+                self.class_ctx[-1].local_lists.add(id(v))
+            return v
         g = e.generators[0]
         it = self.ev(g.iter, fr)
         if isinstance(it, VSymList) and not g.ifs:
